@@ -26,6 +26,10 @@ type Book struct {
 	Extras     bool   // EPUB 3: also an NCX; EPUB 2: a <guide>
 	InfraFirst bool   // navigation items precede the chapters in manifest and archive
 	NavText    string // text shown in the navigation document heading
+	// the declaration chain: all <rootfile> entries in container order (empty: just this
+	// package) and the further package documents some of them name
+	Rootfiles  []ERootfile
+	Alternates []AltPackage
 }
 
 func dirOf(p string) string {
@@ -41,37 +45,51 @@ func ChapterXML(c EChapter) string {
 		`<html xmlns="http://www.w3.org/1999/xhtml"><head><title>Chapter</title></head><body><p>` + esc(c.Text) + `</p></body></html>`
 }
 
-// Members renders the package: mimetype first and stored (OCF 4.3), then the rest.
-func (b *Book) Members() []Member {
-	spine := sortedBy(b.Chapters, func(c EChapter) int { return c.DeclPos })
-	man := sortedBy(b.Chapters, func(c EChapter) int { return c.RelPos })
-	dir := dirOf(b.OPFPath)
-	hasNCX := b.Version == 2 || b.Extras
-	hasNav := b.Version == 3
+// EItem is one manifest item / spine entry of a package document.
+type EItem struct{ ItemID, Href string }
 
+// AltPackage is a further package document listed in META-INF/container.xml after the
+// default one (another rendition): its own manifest, spine and navigation files.
+type AltPackage struct {
+	OPFPath string  // ZIP member name
+	Tag     string  // distinguishes its navigation files: nav_<tag>.xhtml, toc_<tag>.ncx
+	Spine   []EItem // manifest (same order) and spine
+}
+
+// ERootfile is one <rootfile> of container.xml, in container order.
+type ERootfile struct {
+	FullPath, MediaType string
+	Dummy               bool // a member of another format that the writer has to supply
+}
+
+// packageXML renders one package document and its navigation members.
+func packageXML(version int, extras, infraFirst bool, opfPath, navName, ncxName, navText string, man, spine []EItem) (string, []Member) {
+	dir := dirOf(opfPath)
+	hasNCX := version == 2 || extras
+	hasNav := version == 3
 	var navItems strings.Builder
 	if hasNav {
-		navItems.WriteString(`<item id="nav" href="nav.xhtml" media-type="application/xhtml+xml" properties="nav"/>`)
+		navItems.WriteString(`<item id="nav" href="` + navName + `" media-type="application/xhtml+xml" properties="nav"/>`)
 	}
 	if hasNCX {
-		navItems.WriteString(`<item id="ncx" href="toc.ncx" media-type="application/x-dtbncx+xml"/>`)
+		navItems.WriteString(`<item id="ncx" href="` + ncxName + `" media-type="application/x-dtbncx+xml"/>`)
 	}
 	var o strings.Builder
 	o.WriteString(`<?xml version="1.0" encoding="UTF-8"?>` + "\n")
-	fmt.Fprintf(&o, `<package xmlns="http://www.idpf.org/2007/opf" version="%d.0" unique-identifier="uid">`, b.Version)
+	fmt.Fprintf(&o, `<package xmlns="http://www.idpf.org/2007/opf" version="%d.0" unique-identifier="uid">`, version)
 	o.WriteString(`<metadata xmlns:dc="http://purl.org/dc/elements/1.1/" xmlns:opf="http://www.idpf.org/2007/opf">` +
 		`<dc:identifier id="uid">urn:uuid:00000000-0000-4000-8000-000000000017</dc:identifier><dc:title>Book</dc:title><dc:language>en</dc:language>`)
-	if b.Version == 3 {
+	if version == 3 {
 		o.WriteString(`<meta property="dcterms:modified">2020-01-01T00:00:00Z</meta>`)
 	}
 	o.WriteString(`</metadata><manifest>`)
-	if b.InfraFirst {
+	if infraFirst {
 		o.WriteString(navItems.String())
 	}
 	for _, c := range man {
 		fmt.Fprintf(&o, `<item id="%s" href="%s" media-type="application/xhtml+xml"/>`, esc(c.ItemID), esc(c.Href))
 	}
-	if !b.InfraFirst {
+	if !infraFirst {
 		o.WriteString(navItems.String())
 	}
 	o.WriteString(`</manifest>`)
@@ -84,26 +102,21 @@ func (b *Book) Members() []Member {
 		fmt.Fprintf(&o, `<itemref idref="%s"/>`, esc(c.ItemID))
 	}
 	o.WriteString(`</spine>`)
-	if b.Version == 2 && b.Extras && len(spine) > 0 {
+	if version == 2 && extras && len(spine) > 0 {
 		fmt.Fprintf(&o, `<guide><reference type="text" title="Start" href="%s"/></guide>`, esc(spine[0].Href))
 	}
 	o.WriteString(`</package>`)
-
-	container := `<?xml version="1.0" encoding="UTF-8"?>` + "\n" +
-		`<container version="1.0" xmlns="urn:oasis:names:tc:opendocument:xmlns:container"><rootfiles>` +
-		`<rootfile full-path="` + esc(b.OPFPath) + `" media-type="application/oebps-package+xml"/></rootfiles></container>`
-
 	var nav []Member
 	if hasNav {
 		var n strings.Builder
 		n.WriteString(`<?xml version="1.0" encoding="UTF-8"?>` + "\n" + `<!DOCTYPE html>` + "\n" +
 			`<html xmlns="http://www.w3.org/1999/xhtml" xmlns:epub="http://www.idpf.org/2007/ops"><head><title>Contents</title></head><body>` +
-			`<nav epub:type="toc"><h2>` + esc(b.NavText) + `</h2><ol>`)
+			`<nav epub:type="toc"><h2>` + esc(navText) + `</h2><ol>`)
 		for i, c := range spine {
 			fmt.Fprintf(&n, `<li><a href="%s">Entry %d</a></li>`, esc(c.Href), i+1)
 		}
 		n.WriteString(`</ol></nav></body></html>`)
-		nav = append(nav, mem(dir+"nav.xhtml", n.String()))
+		nav = append(nav, mem(dir+navName, n.String()))
 	}
 	if hasNCX {
 		var n strings.Builder
@@ -116,10 +129,44 @@ func (b *Book) Members() []Member {
 			fmt.Fprintf(&n, `<navPoint id="np%d" playOrder="%d"><navLabel><text>Entry %d</text></navLabel><content src="%s"/></navPoint>`, i+1, i+1, i+1, esc(c.Href))
 		}
 		n.WriteString(`</navMap></ncx>`)
-		nav = append(nav, mem(dir+"toc.ncx", n.String()))
+		nav = append(nav, mem(dir+ncxName, n.String()))
 	}
-	infra := []Member{mem("META-INF/container.xml", container), mem(b.OPFPath, o.String())}
+	return o.String(), nav
+}
+
+// Members renders the package: mimetype first and stored (OCF 4.3), then the rest.
+func (b *Book) Members() []Member {
+	var man, spine []EItem
+	for _, c := range sortedBy(b.Chapters, func(c EChapter) int { return c.RelPos }) {
+		man = append(man, EItem{c.ItemID, c.Href})
+	}
+	for _, c := range sortedBy(b.Chapters, func(c EChapter) int { return c.DeclPos }) {
+		spine = append(spine, EItem{c.ItemID, c.Href})
+	}
+	opf, nav := packageXML(b.Version, b.Extras, b.InfraFirst, b.OPFPath, "nav.xhtml", "toc.ncx", b.NavText, man, spine)
+	roots := b.Rootfiles
+	if len(roots) == 0 {
+		roots = []ERootfile{{FullPath: b.OPFPath, MediaType: "application/oebps-package+xml"}}
+	}
+	var c strings.Builder
+	c.WriteString(`<?xml version="1.0" encoding="UTF-8"?>` + "\n" +
+		`<container version="1.0" xmlns="urn:oasis:names:tc:opendocument:xmlns:container"><rootfiles>`)
+	for _, r := range roots {
+		c.WriteString(`<rootfile full-path="` + esc(r.FullPath) + `" media-type="` + esc(r.MediaType) + `"/>`)
+	}
+	c.WriteString(`</rootfiles></container>`)
+	infra := []Member{mem("META-INF/container.xml", c.String()), mem(b.OPFPath, opf)}
 	infra = append(infra, nav...)
+	for _, a := range b.Alternates {
+		aopf, anav := packageXML(b.Version, b.Extras, b.InfraFirst, a.OPFPath, "nav_"+a.Tag+".xhtml", "toc_"+a.Tag+".ncx", b.NavText, a.Spine, a.Spine)
+		infra = append(infra, mem(a.OPFPath, aopf))
+		infra = append(infra, anav...)
+	}
+	for _, r := range roots {
+		if r.Dummy {
+			infra = append(infra, mem(r.FullPath, "%PDF-1.4\n% another format of the book (placeholder)\n"))
+		}
+	}
 	var parts []Member
 	zs := append([]EChapter{}, b.Chapters...)
 	sort.SliceStable(zs, func(i, j int) bool { return zs[i].ZipPos < zs[j].ZipPos })
